@@ -15,6 +15,7 @@ from lib import (Check, COMMON_TRUSTED, NCPU, REPO, VERIF, coq_bool, coq_list, c
                  parse_nat_list, run_coq_files, run_py)
 
 PROP = "C07"
+EMPTY_AFTER_RUN_ID = "C07-empty-body-after-run"     # id used if fix dcc62bc is ever reverted
 OPTRACE = VERIF / "harness" / "optrace.py"
 
 DEFAULT_CERT = dict(LOAD="__load__", TICK="__tick__", PRIVATE="__private__", VAR="__variable__", INT="__int__",
@@ -186,17 +187,33 @@ def legal_path(p: str) -> bool:
     return bool(LEGAL_PATH.match(p)) and all(set(s) != {"."} for s in p.split("/"))
 
 
+QUOTED_TAIL = re.compile(r'^(#?[A-Za-z0-9_.\-]+:[A-Za-z0-9_./\-]+)[\\"\']')
+
+
 def line_refs(line: str):
     ws = line.split(" ")
     out = []
     for a, b in zip(ws, ws[1:]):
         if a in ("function", "$function") and "$(" not in b and b:
+            q = QUOTED_TAIL.match(b)
+            if q:
+                b = q.group(1)      # inside quoted text (a click event): the location ends at the closing quote
             if b.startswith("#"):
                 if ":" in b[1:]:
                     out.append(("tag", b[1:]))
             elif ":" in b:
                 out.append(("func", b))
     return out
+
+
+EMBEDDED_REF = re.compile(r'(?<![a-z0-9_.\-])function (#?)([A-Za-z0-9_.\-]+:[A-Za-z0-9_./\-]+)')
+
+
+def embedded_refs(text: str):
+    """`function <ns>:<path>` anywhere in the text, also inside quoted JSON (click events of signs / text properties, commands
+    stored in NBT): references that the word-by-word scan of line_refs does not see (strengthening round 1)."""
+    return [("tag" if m.group(1) else "func", m.group(2)) for m in EMBEDDED_REF.finditer(text)
+            if text[m.end():m.end() + 2] != "$("]          # `.../$(switch_key)`: a macro, resolved at run time
 
 
 def json_refs(is_func_tag: bool, text: str):
@@ -253,14 +270,20 @@ def oracle(job, res) -> list[dict]:
                 if line == "":
                     fails.append(dict(kind="empty-line", path=path, line_no=i + 1))
                     break
+                if line != "" and (line.strip() == "" or re.search(r"(^| )run ?$", line)):
+                    # a line that is not a command: blank, or an `execute ... run` with nothing after it
+                    fails.append(dict(kind="incomplete-command", path=path, line_no=i + 1, line=line[:300]))
+                    break
             refs = [r for line in lines for r in line_refs(line)]
-        for kind, loc in refs:
+        direct = set(refs)
+        refs = refs + [r + ("embedded",) for r in embedded_refs(content if is_json else "\n".join(lines)) if r not in direct]
+        for kind, loc, *emb in refs:
             if loc.split(":", 1)[0] not in own:
                 continue
             if not resolves(kind, loc):
-                literal = loc in src
+                literal = loc in src or (bool(emb) and loc.rstrip(".") in src)
                 fails.append(dict(kind="dangling-reference", path=path, ref=("#" if kind == "tag" else "") + loc,
-                                  user_literal=literal,
+                                  user_literal=literal, embedded=bool(emb),
                                   line=next((l for l in content.split("\n") if loc in l), "")[:300]))
     load_tag = files.get(f"VIRTUAL/data/minecraft/tags/{ff}/load.json")
     if load_tag is None or f'"{ns}:{cfg["load"]}"' not in load_tag:
@@ -292,6 +315,8 @@ RULES = {
         r"schedule (function|clear) " + re.escape(f["ref"]) + r"( |$)", f.get("line", "")) is not None,
     "C07-funcmap-raw-keyword": lambda job, res, f: f["kind"] == "dangling-reference" and re.search(
         r"/(right_click_setup|trigger_setup)/", f["path"]) is not None,
+    EMPTY_AFTER_RUN_ID: lambda job, res, f: f["kind"] == "incomplete-command" and re.search(r" run ?$", f.get("line", "")) is not None
+        and re.search(r"@lazy|Timer\.add", job.get("src", "")) is not None,
     "C07-json-replaces-function-tag": lambda job, res, f: f["kind"] in ("load-not-registered", "tick-not-registered")
         and re.search(r"new\s+tags?\.functions?\s*\(\s*minecraft\.(load|tick)\s*\)", job.get("src", "")) is not None,
     "C07-internal-name-under-override": lambda job, res, f: f["kind"] in ("load-not-registered", "tick-not-registered", "dangling-reference")
@@ -315,9 +340,10 @@ class Gen:
     """Random core-language programs: functions, classes, if/else chains, loops, switch, anonymous
     functions, schedule, user calls (plain, dotted, this.), @add decorators, overridden namespaces."""
 
-    def __init__(self, rng, overrides=(), tick_name="__tick__", load_name="__load__"):
+    def __init__(self, rng, overrides=(), tick_name="__tick__", load_name="__load__", p_empty=0.0, builtins=False):
         self.rng, self.overrides = rng, list(overrides)
         self.tick_name, self.load_name = tick_name, load_name
+        self.p_empty, self.builtins = p_empty, builtins
         self.n = 0
 
     def uid(self):
@@ -335,6 +361,8 @@ class Gen:
         return f"({r.choice(atoms)} || {r.choice(atoms)}) && {r.choice(atoms)}"
 
     def body(self, depth, fnames, in_class):
+        if self.p_empty and self.rng.random() < self.p_empty:
+            return self.rng.choice(EMPTY_BODIES[1:])     # a body without any command (blank / comment only)
         n = self.rng.choice([1, 1, 2, 2, 3, 4])
         return " ".join(self.stmt(depth, fnames, in_class) for _ in range(n))
 
@@ -356,7 +384,7 @@ class Gen:
             if k == 5 and fnames:
                 return f"execute as @a at @s run {r.choice(fnames)}();"
             return f'tellraw @a "t{self.uid()}";'
-        k = r.randrange(9)
+        k = r.randrange(12 if self.builtins else 9)
         B = lambda: self.body(depth - 1, fnames, in_class)  # noqa: E731
         if k == 0:
             s = f"if ({self.cond()}) {{ {B()} }}"
@@ -373,8 +401,20 @@ class Gen:
             v = "$i%d" % self.uid()
             return f"for ({v}=0; {v}<{r.randint(2, 5)}; {v}++) {{ {B()} }}"
         if k == 4:
-            cases = " ".join(f"case {i + 1}: {B()}" for i in range(r.choice([1, 2, 3, 4, 5, 7])))
+            def case_body():
+                if self.p_empty and r.random() < 2 * self.p_empty:
+                    return "break;"
+                b = B()
+                return "break;" if b in EMPTY_BODIES else b + (" break;" if self.p_empty and r.random() < 0.3 else "")
+            cases = " ".join(f"case {i + 1}: {case_body()}" for i in range(r.choice([1, 2, 3, 4, 5, 7])))
             return f"switch(${r.choice('abc')}) {{ {cases} }}"
+        if k == 9:
+            return f"Hardcode.switch(${r.choice('abc')}, (idx)=>{{ {B()} }}, count={r.randint(1, 6)});"
+        if k == 10:
+            return f"Hardcode.repeat((idx)=>{{ {B()} }}, start=1, stop={r.randint(2, 4)});"
+        if k == 11:
+            hooks = [f"{h}=()=>{{ {B()} }}" for h in ("onHit", "onStep", "onBeforeStep") if h == "onHit" or r.random() < 0.5]
+            return f"Raycast.simple({', '.join(hooks)});"
         if k == 5:
             return f"execute as @a at @s run {{ {B()} }}"
         if k == 6:
@@ -382,6 +422,30 @@ class Gen:
         if k == 7:
             return f"execute if entity @s[tag=k{self.uid()}] expand {{ {B()} }}"
         return f"if ({self.cond()}) {{ {B()} }}"
+
+    def load_builtin(self, fnames):
+        """a load-only built-in whose arrow functions / function tables have generated bodies"""
+        r = self.rng
+        B = lambda: self.body(1, fnames, None)  # noqa: E731
+        u = self.uid()
+
+        def table():
+            keys = sorted(r.sample(range(1, 9), r.randint(1, 4)))
+            return "{" + ", ".join(f"{k}: " + (r.choice(fnames) if fnames and r.random() < 0.25 else f"()=>{{ {B()} }}") for k in keys) + "}"
+        k = r.randrange(7)
+        if k == 0:
+            return f"Trigger.setup(trg{u}, {table()});"
+        if k == 1:
+            return f"RightClick.setup(rc{u}, {table()});"
+        if k == 2:
+            return f"Timer.add(tm{u}, {r.choice(['runOnce', 'runTick'])}, @a, ()=>{{ {B()} }});"
+        if k == 3:
+            return f"Player.onEvent(used:carrot_on_a_stick, ()=>{{ {B()} }});"
+        if k == 4:
+            return f"Trigger.add(tra{u}, ()=>{{ {B()} }});"
+        if k == 5:
+            return f"Player.{r.choice(['join', 'rejoin', 'firstJoin'])}(()=>{{ {B()} }});"
+        return f"Player.die(onDeath=()=>{{ {B()} }}, onRespawn=()=>{{ {B()} }});"
 
     def program(self):
         r = self.rng
@@ -406,6 +470,9 @@ class Gen:
             out.append(f"class {cls} {{ {ms} }}")
         for _ in range(r.choice([0, 1, 2])):
             out.append(self.stmt(2, fnames, None))     # load-function statements
+        if self.builtins:
+            for _ in range(r.choice([0, 1, 2])):
+                out.append(self.load_builtin(all_callable))
         r.shuffle(out)
         return "\n".join(out)
 
@@ -454,6 +521,165 @@ ADVERSARIAL = [
     ("private-outside", dict(src='class k { @private function p() { say "p"; } } function q() { k.p(); }')),
 ]
 
+# ---- strengthening round 1: bodies WITHOUT commands at every place where a private function is allocated.
+# `@E@` is replaced by each of EMPTY_BODIES ("{}" is rejected by some statements and accepted by others, "{ }" and a
+# comment-only body pass the `== "{}"` test of add_arrow_function: the private function is stored with no command and
+# must still be written, because the call to it is emitted).
+EMPTY_BODIES = ["", " ", "// nothing\n", "\n"]
+EMPTY_SHAPES = [
+    # switch: break-only cases at every position, both strategies (binary tree below pack_format 16 / #forcebst, macro above)
+    ("switch-mid", 'function f() { switch($x) { case 1: say "1"; case 2: break; case 3: say "3"; } }'),
+    ("switch-first", 'function f() { switch($x) { case 1: break; case 2: say "2"; say "2b"; } }'),
+    ("switch-last", 'function f() { switch($x) { case 1: say "1"; case 2: say "2"; case 3: break; } }'),
+    ("switch-all", 'function f() { switch($x) { case 1: break; case 2: break; case 3: break; case 4: break; case 5: break; } }'),
+    ("switch-single", 'function f() { switch($x) { case 1: break; } }'),
+    ("switch-7", 'function f() { switch($x) { case 1: say "1"; case 2: break; case 3: break; case 4: say "4"; break; case 5: break; case 6: say "6"; case 7: break; } }'),
+    ("switch-default", 'function f() { switch($x) { case 1: say "1"; case 2: break; default: break; } }'),
+    ("switch-sparse", 'function f() { switch($x) { case 3: break; case 10: say "10"; case 25: break; } }'),
+    ("switch-nested", 'function f() { switch($x) { case 1: switch($y) { case 1: break; case 2: break; } case 2: break; } }'),
+    ("switch-in-class", 'class K.L { function m() { switch($x) { case 1: break; case 2: this.m(); case 3: break; } } }'),
+    ("switch-with", 'function f() { switch($x) { case 1: break; case 2: say "2"; } } function g() { f(); }'),
+    ("switch-body-if", 'function f() { switch($x) { case 1: if ($y > 1) {@E@} case 2: while ($z > 1) {@E@} } }'),
+    # if / else chains
+    ("if", 'function f() { if ($x > 1) {@E@} }'),
+    ("if-else", 'function f() { if ($x > 1) { say "1"; say "2"; } else {@E@} }'),
+    ("if-else-both", 'function f() { if ($x > 1) {@E@} else {@E@} }'),
+    ("if-empty-else", 'function f() { if ($x > 1) {@E@} else { say "1"; say "2"; } }'),
+    ("elif-mid", 'function f() { if ($x > 1) { say "1"; say "2"; } else if ($y > 1) {@E@} else { say "3"; say "4"; } }'),
+    ("elif-all", 'function f() { if ($x > 1) {@E@} else if ($y > 1) {@E@} else if ($z > 2) {@E@} else {@E@} }'),
+    ("elif-last", 'function f() { if ($x > 1) { say "1"; } else if ($y > 1 || $z > 1) {@E@} }'),
+    ("if-or", 'function f() { if ($x > 1 || $y > 2) {@E@} }'),
+    ("if-or-nested", 'function f() { if (($x > 1 || $y > 2) && ($z == 1 || !$w)) {@E@} else {@E@} }'),
+    ("if-nested", 'function f() { if ($x > 1) { if ($y > 1) {@E@} else {@E@} say "t"; } }'),
+    ("if-load", 'if ($x > 1) {@E@} else if ($y > 2) {@E@}'),
+    ("if-class", 'class k { function m() { if ($x > 1) {@E@} else { this.m(); say "2"; } } }'),
+    ("if-boolfunc", 'function e() {@E@} function f() { if (e()) {@E@} }'),
+    # loops
+    ("while", 'function f() { while ($x > 1) {@E@} }'),
+    ("do-while", 'function f() { do {@E@} while ($x > 1); }'),
+    ("for", 'function f() { for ($i=0; $i<3; $i++) {@E@} }'),
+    ("while-nested", 'function f() { while ($x > 1) { while ($y > 1) {@E@} } }'),
+    ("loops-class", 'class k { function m() { while ($x > 1) {@E@} do {@E@} while ($y > 1); for ($i=0; $i<3; $i++) {@E@} } }'),
+    # anonymous functions
+    ("exec-run", 'function f() { execute as @a run {@E@} }'),
+    ("exec-expand", 'function f() { execute as @a expand {@E@} }'),
+    ("exec-expand-2", 'function f() { execute as @a expand { say "1"; if ($x > 1) {@E@} } }'),
+    ("schedule", 'function f() { schedule 5t {@E@} }'),
+    ("schedule-append", 'function f() { schedule 5t append {@E@} schedule 7t replace {@E@} }'),
+    ("exec-run-class", 'class k { function m() { execute as @a run {@E@} schedule 2t {@E@} } }'),
+    # user functions without commands and every way of referring to them
+    ("func-call", 'function e() {@E@} function g() { e(); execute as @a run e(); schedule function e() 3t; }'),
+    ("func-class", 'class k { function m() {@E@} function n() { this.m(); k.m(); } }'),
+    ("func-private", 'class k { @private function p() {@E@} function q() { this.p(); } }'),
+    ("func-tick", 'function __tick__() {@E@} function g() { __tick__(); }'),
+    ("func-add", 'function base() {@E@} @add(base) function ext() {@E@} function g() { ext(); base(); }'),
+    ("func-add-tick", '@add(__tick__) function ext() {@E@} @add(__load__) function ext2() {@E@}'),
+    ("func-with", 'function e() {@E@} function g() { e() with {x: 1}; }'),
+    ("func-tag", 'function e() {@E@}\nnew tags.functions(mytag) {"values": ["TEST:e"]}\nfunction g() { function #TEST:mytag; }'),
+    ("func-override", 'function minecraft.e() {@E@} function g() { minecraft.e(); }', "#override minecraft"),
+    ("func-as-arg", 'function e() {@E@}\nPlayer.firstJoin(e);\nTrigger.setup(t1, {1: e, 2: ()=>{@E@}});\nRightClick.setup(r1, {1: e});'),
+    ("lazy", '@lazy function lz(a) {@E@} function u() { lz(a="x"); say "after"; }'),
+    # arrow functions handed to built-ins
+    ("firstjoin", 'Player.firstJoin(()=>{@E@});'),
+    ("join-rejoin", 'Player.join(()=>{@E@}); Player.rejoin(()=>{@E@});'),
+    ("die", 'Player.die(onDeath=()=>{@E@}, onRespawn=()=>{ say "r"; say "s"; });'),
+    ("die-respawn", 'Player.die(onDeath=()=>{ say "d"; }, onRespawn=()=>{@E@});'),
+    ("on-event", 'Player.onEvent(used:carrot_on_a_stick, ()=>{@E@}); Player.onEvent(used:carrot_on_a_stick, ()=>{ say "x"; });'),
+    ("trigger-setup", 'Trigger.setup(t1, {1: ()=>{@E@}, 2: ()=>{ say "c"; }, 3: ()=>{@E@}});'),
+    ("trigger-setup-all", 'Trigger.setup(t1, {1: ()=>{@E@}, 2: ()=>{@E@}});\nTrigger.setup(t2, {5: ()=>{@E@}});'),
+    ("trigger-add", 'Trigger.add(t3, ()=>{@E@});'),
+    ("rightclick", 'RightClick.setup(id1, {1: ()=>{@E@}, 2: ()=>{@E@}});\nRightClick.setup(id2, {3: ()=>{ say "k"; }, 9: ()=>{@E@}});'),
+    # (an arrow / @lazy function without commands after `run` used to emit `execute ... run ` with nothing behind it: fix dcc62bc)
+    ("timer", 'Timer.add(cd, runOnce, @a, ()=>{@E@});\nTimer.add(cd2, runTick, @a, ()=>{@E@});\nfunction f() { if (Timer.isOver(cd, @s)) {@E@} }'),
+    ("lazy-exec", '@lazy function lz(a) {@E@} function u() { execute as @a run lz(a="x"); say "after"; }'),
+    ("lazy-exec-noarg", '@lazy function lz() {@E@} function u() { execute if entity @s run lz(); }'),
+    ("raycast", 'function f() { Raycast.simple(onHit=()=>{@E@}, onStep=()=>{@E@}, onBeforeStep=()=>{@E@}); Raycast.simple(onHit=()=>{@E@}); }'),
+    ("foreach", 'function f() { Array.forEach(::myarr, ()=>{@E@}); }'),
+    ("item-use", 'Item.createUse(myWand, carrot_on_a_stick, "Wand", onClick=()=>{@E@});\nItem.createSign(mySign, oak, "Sign", texts=["a","b"], onClick=()=>{@E@});'),
+    ("gui", 'Item.create(stone1, stone, "S");\nGUI.template(name=shop.main, template=["####A####","####B####"], mode=entity);\n'
+            'GUI.registers(name=shop.main, id="B", items=[stone1], variable=$x, onClick=()=>{@E@}, onClickAsGUI=()=>{@E@});\n'
+            'GUI.create(shop.main);\nfunction open() { execute as @e[tag=shop] run GUI.run(shop.main); }'),
+    ("recipe", 'Recipe.table({"type": "minecraft:crafting_shapeless", "ingredients": [{"item": "minecraft:oak_planks"}], '
+               '"result": {"item": "minecraft:diamond", "count": 5}}, baseItem=knowledge_book, onCraft=()=>{@E@});'),
+    ("hardcode-repeat", 'function f() { Hardcode.repeat((i)=>{@E@}, start=1, stop=4); }'),
+    ("hardcode-repeat-if", 'function f() { Hardcode.repeat((i)=>{ if ($x == $i) {@E@} else {@E@} }, start=1, stop=4); }'),
+    ("hardcode-repeatlist", 'function f() { Hardcode.repeatList((i, s)=>{@E@}, strings=["a","b"]); Hardcode.repeatList((i, s)=>{ execute as @a[tag=$s] run {@E@} }, strings=["a","b"]); }'),
+    ("hardcode-switch", 'function f() { Hardcode.switch($v, (i)=>{@E@}, count=5); }'),
+    ("hardcode-switch-1", 'function f() { Hardcode.switch($v, (i)=>{@E@}, count=1); Hardcode.switch($w, (i)=>{ if ($x == $i) {@E@} }, count=3); }'),
+]
+# references that sit inside quoted text (click events): seen only by the embedded scan
+EMBEDDED_SHAPES = [
+    ("click-user", 'function foo.bar() { say "x"; }\nTextProp.clickCommand("p1", ()=>{ foo.bar(); });\nfunction f() { Text.tellraw(@a, "&<p1>click"); }'),
+    ("click-class", 'class Kit.A { function m() { say "x"; } }\nTextProp.clickCommand("p1", ()=>{ Kit.A.m(); });\n'
+                    'TextProps.clickCommand("p2", "IDX", ()=>{ execute as @s run Kit.A.m(); });\nfunction f() { Text.tellraw(@a, "&<p1>click &<p2(a)>x"); }'),
+    ("click-private", 'TextProp.clickCommand("p1", ()=>{ execute as @a run { say "1"; say "2"; } });\nfunction f() { Text.tellraw(@a, "&<p1>click"); Text.title(@a, "&<p1>t"); }'),
+    ("click-override", 'function minecraft.go() { say "x"; }\nTextProp.clickCommand("p1", ()=>{ minecraft.go(); });\nfunction f() { Text.tellraw(@a, "&<p1>click"); }', "#override minecraft"),
+    ("sign-click", 'function foo.bar() { say "x"; }\nItem.createSign(mySign, oak, "Sign", texts=["a","b"], onClick=()=>{ foo.bar(); });\nfunction f() { Item.give(mySign, @s); }'),
+]
+# the accepted variants of every shape are compiled under these (pack_format, header) strategies, names rotate through CERTS
+EMPTY_STRATEGIES = [(15, None), (48, None), (48, "#forcebst"), (7, None), (61, None), (33, "#forcebst")]
+
+
+def empty_shape_jobs(rng, tier):
+    """-> [(origin, job)]: every EMPTY_SHAPES entry x empty-body spelling x strategy (quick: each shape under the binary-tree
+    and the macro strategy with the blank body + two more (spelling, strategy) pairs drawn from ck.rng; thorough: all)."""
+    out = []
+    k = 0
+    for spec in EMPTY_SHAPES + [("embedded:" + e[0],) + tuple(e[1:]) for e in EMBEDDED_SHAPES]:
+        name, tpl = spec[0], spec[1]
+        hdr0 = spec[2] if len(spec) > 2 else None
+        bodies = EMPTY_BODIES if "@E@" in tpl else [""]
+        if tier == "quick":
+            combos = [(" " if len(bodies) > 1 else "", EMPTY_STRATEGIES[0]), (" " if len(bodies) > 1 else "", EMPTY_STRATEGIES[1]),
+                      (rng.choice(bodies), rng.choice(EMPTY_STRATEGIES[2:])), (rng.choice(bodies), rng.choice(EMPTY_STRATEGIES))]
+        else:
+            combos = [(b, st) for b in bodies for st in EMPTY_STRATEGIES]
+        seen = set()
+        for body, (pf, hdr) in combos:
+            if (body, pf, hdr) in seen:
+                continue
+            seen.add((body, pf, hdr))
+            k += 1
+            cert = CERTS[k % len(CERTS)]
+            ns = NAMESPACES[k % len(NAMESPACES)] if "TEST:" not in tpl else "TEST"
+            src = tpl.replace("@E@", body)
+            for key, dflt in (("TICK", "__tick__"), ("LOAD", "__load__")):
+                src = src.replace(f"function {dflt}()", f"function {cert[key].replace('/', '.')}()").replace(
+                    f"{dflt}();", f"{cert[key].replace('/', '.')}();").replace(f"@add({dflt})", f"@add({cert[key].replace('/', '.')})")
+            header = "\n".join(h for h in (hdr0, hdr) if h) or None
+            out.append((name if name.startswith("embedded:") else f"empty:{name}", dict(src=src, header=header, cert=cert_text(cert), pack_format=pf, namespace=ns)))
+    return out
+
+
+def emptied(src: str) -> str:
+    """the probe program with every brace-free arrow-function body removed (`()=>{ say "a"; }` -> `()=>{ }`)"""
+    return re.sub(r"=>\s*\{[^{}]*\}", "=>{ }", src)
+
+
+def empty_private_coverage(jobs, results):
+    """How many accepted compiles emit a private function WITHOUT commands that is referenced from another emitted file,
+    and which private groups these belong to (measured on the real outputs)."""
+    n, groups, origins = 0, set(), set()
+    for (origin, job), res in zip(jobs, results):
+        if not res.get("ok") or not res.get("cfg"):
+            continue
+        cfg, files = res["cfg"], res["files"]
+        ff = "functions" if cfg["legacy"] else "function"
+        pre = f"VIRTUAL/data/{cfg['ns']}/{ff}/{cfg['private']}/"
+        hit = False
+        for path, content in files.items():
+            if path.startswith(pre) and path.endswith(".mcfunction") and content.split("\n\n\n")[0] == "":
+                loc = f"{cfg['ns']}:{path[len(pre) - len(cfg['private']) - 1:-len('.mcfunction')]}"
+                macro = loc.rsplit("/", 1)[0] + "/$(switch_key)"
+                if any((loc in c or macro in c) for p2, c in files.items() if p2 != path):
+                    hit = True
+                    groups.add(path[len(pre):].split("/")[0])
+        if hit:
+            n += 1
+            origins.add(origin.split(":")[0])
+    return dict(compiles=n, groups=sorted(groups), origins=sorted(origins))
+
+
 PROBE_SAMPLES = {
     "ARROW_FUNC": ['()=>{ say "m1"; say "m2"; }'],
     "FUNC": ['()=>{ say "m1"; say "m2"; }', "probe.target"],
@@ -474,8 +700,9 @@ PROBE_SAMPLES = {
 }
 # hand-written probes for the built-ins whose arguments cannot be synthesised from the registry
 HAND_PROBES = {
-    "GUI.*": ('GUI.template(name=shop.main, template=["####A####","#########","####B####"], mode=entity);\n'
-              'GUI.registers(name=shop.main, id="B", items=[stone, dirt], variable=$x, onClick=()=>{ say "b1"; say "b2"; });\n'
+    "GUI.*": ('Item.create(stone1, stone, "S");\nItem.create(dirt1, dirt, "D");\n'
+              'GUI.template(name=shop.main, template=["####A####","#########","####B####"], mode=entity);\n'
+              'GUI.registers(name=shop.main, id="B", items=[stone1, dirt1], variable=$x, onClick=()=>{ say "b1"; say "b2"; });\n'
               'GUI.create(shop.main);\nfunction open() { execute as @e[tag=shop] run GUI.run(shop.main); }', 32),
     "Item.*": ('Item.create(mySword, stone_sword, "Sword");\n'
                'Item.createUse(myWand, carrot_on_a_stick, "Wand", onClick=()=>{ say "w1"; say "w2"; });\n'
@@ -485,8 +712,9 @@ HAND_PROBES = {
     "Timer.*": ('Timer.add(help_cd, runOnce, @a, ()=>{ say "t1"; say "t2"; });\nTimer.add(cd2, runTick, @a, ()=>{ say "t3"; say "t4"; });\n'
                 'function f() { Timer.set(help_cd, @s, 5); if (Timer.isOver(help_cd, @s)) { say "o1"; say "o2"; } }', 48),
     "Array.forEach": ('function f() { Array.forEach(::myarr, ()=>{ say "f1"; say "f2"; }); }', 48),
-    "Hardcode.*": ('function f() { Hardcode.repeat((i)=>{ say "r$i"; if ($x matches 1) { say "a$i"; say "b"; } }, start=1, stop=4); '
-                   'Hardcode.repeatList((i)=>{ say "l$i"; }, strings=["a","b"]); '
+    "Hardcode.*": ('function f() { Hardcode.repeat((i)=>{ say "r$i"; if ($x matches 1..2) { say "a$i"; say "b"; } }, start=1, stop=4); '
+                   'Hardcode.repeatList((i, s)=>{ say "l$i $s"; }, strings=["a","b"]); '
+                   'Hardcode.repeatLists((i, s, t)=>{ say "l$i $s $t"; if ($y == $i) { say "c$s"; say "d"; } }, [["a","b"], ["c", "d"]]); '
                    'Hardcode.switch($v, (i)=>{ say "$i"; say "x$i"; }, count=5); }', 48),
     "JMC.require": ('JMC.require(namespace=other, functionPath="other:main", errorMessage="missing");', 48, "#link other"),
     "Trigger/RightClick twice": ('Trigger.setup(t1, {1: ()=>{ say "a"; say "b"; }, 2: ()=>{ say "c"; }});\n'
@@ -623,6 +851,27 @@ def gather_jobs(ck, tier):
         g = Gen(rng, overrides, tick_name=cert["TICK"], load_name=cert["LOAD"])
         src = g.program().replace("__variable__", cert["VAR"])
         jobs.append((f"random:{i}", dict(src=src, header=header, cert=cert_text(cert), pack_format=pf, namespace=ns)))
+    # strengthening round 1: empty bodies everywhere a private function is allocated, under every strategy
+    jobs.extend(empty_shape_jobs(rng, tier))
+    for name, spec in HAND_PROBES.items():
+        # the hand probes again under the binary-tree strategy / other names, and with emptied arrow functions
+        src, pf = spec[0], spec[1]
+        for src2, pf2, cert in ((src, 15 if pf >= 16 else 48, CERTS[1]), (emptied(src), pf, CERTS[2]), (emptied(src), 15, CERTS[4])):
+            j = dict(src=src2, pack_format=pf2, cert=cert_text(cert), namespace="ns_1.x-y")
+            if len(spec) > 2:
+                j["header"] = spec[2]
+            jobs.append((f"probe2:{name}", j))
+    n_rand2 = 90 if tier == "quick" else 900
+    for i in range(n_rand2):
+        cert = CERTS[(i + 2) % len(CERTS)]
+        ns = NAMESPACES[(i + 1) % len(NAMESPACES)]
+        pf = [15, 48, 10, 61, 16, 4, 33, 48][i % 8] if i % 3 else rng.choice(PACK_FORMATS)
+        hdr_kind = rng.choice(["none", "none", "forcebst", "forcebst", "override", "credit"])
+        overrides = ["minecraft"] if hdr_kind == "override" else []
+        header = {"forcebst": "#forcebst", "override": "#override minecraft", "credit": '#credit "generated"'}.get(hdr_kind)
+        g = Gen(rng, overrides, tick_name=cert["TICK"], load_name=cert["LOAD"], p_empty=0.18, builtins=bool(i % 2))
+        src = g.program().replace("__variable__", cert["VAR"])
+        jobs.append((f"random-empty:{i}", dict(src=src, header=header, cert=cert_text(cert), pack_format=pf, namespace=ns)))
     return jobs
 
 
@@ -667,7 +916,7 @@ def main(tier: str) -> int:
     probes = builtin_probe_jobs(registry, cert_text(CERTS[0]))
     flat = [j for _, js in probes for j in js]
     pres = trace_jobs(flat, chunk=60)
-    pos, n_probe_ok, probe_failed = 0, 0, []
+    pos, n_probe_ok, probe_failed, n_emptied_probes = 0, 0, [], 0
     for name, js in probes:
         rs = pres[pos:pos + len(js)]
         pos += len(js)
@@ -675,6 +924,13 @@ def main(tier: str) -> int:
         if hit:
             n_probe_ok += 1
             jobs.append((f"builtin:{name}", hit[0]))
+            # strengthening round 1: the same probe with its arrow functions emptied, under both switch strategies and other names
+            e_src = emptied(hit[0]["src"])
+            if e_src != hit[0]["src"]:
+                n_emptied_probes += 1
+                jobs.append((f"builtin-empty:{name}", dict(hit[0], src=e_src, cert=cert_text(CERTS[3]), namespace="mypack")))
+                jobs.append((f"builtin-empty:{name}@15", dict(hit[0], src=e_src, pack_format=15, cert=cert_text(CERTS[1]))))
+                jobs.append((f"builtin:{name}@15", dict(hit[0], pack_format=15, cert=cert_text(CERTS[4]), namespace="mypack")))
         else:
             probe_failed.append(name)
     results = trace_jobs([j for _, j in jobs])
@@ -750,6 +1006,7 @@ def main(tier: str) -> int:
         ops_per_trace=dict(min=min(nops), max=max(nops), mean=round(sum(nops) / len(nops), 1)),
         disagreements_checked=len(mism), undisciplined=len(ev["undisciplined"]), not_closed=len(ev["not_closed"]),
         failing_inputs=n_fail_inputs, user_literal_references_skipped=literal_skipped,
+        empty_private_functions=empty_private_coverage(jobs, results), builtin_probes_emptied=n_emptied_probes,
         convention_mode="strict (repaired)" if strict else "pinned (accepts 'a..b')",
         samples=[dict(origin=o, program=j["src"][:300], ops=len(r["ops"]), ok=r["ok"]) for (o, j), r in list(zip(jobs, results))[120:123]],
         correspondence="model verdict + complete file map (paths and contents) == real, per traced compile; disc/closedb/alloc_disc evaluated in Coq per trace; "
